@@ -10,7 +10,7 @@ GEN = os.path.join(core.LEAN, "NitroVerif", "Generated")
 def ast_dump(rel_src, name_filter):
     p = subprocess.run(["clang++-14", "-std=c++17", "-fsyntax-only", "-I" + os.path.join(core.REPO, "include"),
                         "-Xclang", "-ast-dump=json", "-Xclang", "-ast-dump-filter=" + name_filter,
-                        os.path.join(core.REPO, rel_src)], stdout=subprocess.PIPE, stderr=subprocess.PIPE)
+                        rel_src if os.path.isabs(rel_src) else os.path.join(core.REPO, rel_src)], stdout=subprocess.PIPE, stderr=subprocess.PIPE)
     txt = p.stdout.decode("utf-8", "replace")
     dec = json.JSONDecoder()
     i, objs = 0, []
@@ -435,4 +435,188 @@ def extract_mt_sinks():
                "end NitroVerif.Generated\n") % (lsts(so), lsts(se), "true" if sm else "false", "true" if em else "false",
                                                  "true" if ok else "false")
     changed = write_if_changed(os.path.join(GEN, "MtSinks.lean"), content)
+    return ok, note + (" (file rewritten)" if changed else "")
+
+
+# ---------------------------------------------------------------------------------------------------------
+# C16: the hash combiner.  `detail::hash_combine_impl<unsigned long>` is translated, expression by expression,
+# into a Lean function over BitVec 64 (Generated/HashCombine.lean); the seeds of hash(tuple) / hash(variant)
+# and the shape of hash(pair) are read off the templates.
+
+_INT_TYPES = {"unsigned long": (64, False), "long": (64, True), "unsigned int": (32, False), "int": (32, True),
+              "unsigned long long": (64, False), "long long": (64, True), "std::size_t": (64, False),
+              "size_t": (64, False), "unsigned short": (16, False), "short": (16, True),
+              "unsigned char": (8, False), "char": (8, True), "signed char": (8, True), "bool": (1, False)}
+
+
+def _ity(n):
+    q = (n.get("type") or {}).get("qualType", "")
+    d = (n.get("type") or {}).get("desugaredQualType", q)
+    for t in (q, d):
+        if t in _INT_TYPES:
+            return _INT_TYPES[t]
+    raise ValueError("expression of type '%s' is outside the translated subset" % q)
+
+
+def _bv_expr(n, params):
+    """C++ integer expression -> (Lean term, width).  Subset: parameters, integer literals, + - * ^ | &, << >> by a
+    literal, integral conversions, parentheses."""
+    k = n.get("kind")
+    if k == "ParenExpr":
+        return _bv_expr(n["inner"][0], params)
+    if k == "ImplicitCastExpr":
+        ck = n.get("castKind")
+        inner = n["inner"][0]
+        if ck in ("LValueToRValue", "NoOp"):
+            return _bv_expr(inner, params)
+        if ck == "IntegralCast":
+            t, w0 = _bv_expr(inner, params)
+            w1, _ = _ity(n)
+            _, signed0 = _ity(inner)
+            if w1 == w0:
+                return t, w1
+            if w1 > w0 and signed0:
+                return "(BitVec.signExtend %d %s)" % (w1, t), w1
+            return "(BitVec.setWidth %d %s)" % (w1, t), w1
+        raise ValueError("cast kind %s is outside the translated subset" % ck)
+    if k == "IntegerLiteral":
+        w, _ = _ity(n)
+        return "(%s#%d)" % (n["value"], w), w
+    if k == "DeclRefExpr":
+        name = (n.get("referencedDecl") or {}).get("name")
+        if name not in params:
+            raise ValueError("reference to '%s', which is not a parameter" % name)
+        w, _ = _ity(n)
+        return name, w
+    if k == "BinaryOperator":
+        op = n.get("opcode")
+        a, b = n["inner"]
+        if op in ("<<", ">>"):
+            ta, wa = _bv_expr(a, params)
+            _, signed_a = _ity(a)
+            bb = b
+            while bb.get("kind") in ("ParenExpr", "ImplicitCastExpr"):
+                bb = bb["inner"][0]
+            if bb.get("kind") != "IntegerLiteral":
+                raise ValueError("shift by something that is not a literal")
+            amount = int(bb["value"])
+            if amount >= wa:
+                raise ValueError("shift by %d on a %d-bit value is undefined" % (amount, wa))
+            if op == ">>" and signed_a:
+                return "(BitVec.sshiftRight %s %d)" % (ta, amount), wa
+            return "(%s %s %d)" % (ta, "<<<" if op == "<<" else ">>>", amount), wa
+        lean_op = {"+": "+", "-": "-", "*": "*", "^": "^^^", "|": "|||", "&": "&&&"}.get(op)
+        if lean_op is None:
+            raise ValueError("operator %s is outside the translated subset" % op)
+        ta, wa = _bv_expr(a, params)
+        tb, wb = _bv_expr(b, params)
+        wr, _ = _ity(n)
+        if not (wa == wb == wr):
+            raise ValueError("operands of %s have widths %d and %d, result %d" % (op, wa, wb, wr))
+        return "(%s %s %s)" % (ta, lean_op, tb), wr
+    raise ValueError("node %s is outside the translated subset" % k)
+
+
+def _find(n, pred, out):
+    if pred(n):
+        out.append(n)
+    for c in n.get("inner", []) or []:
+        _find(c, pred, out)
+    return out
+
+
+def _seed_init(fn):
+    """the initialiser of `std::size_t seed = <literal>;` in a function template body"""
+    vds = _find(fn, lambda x: x.get("kind") == "VarDecl" and x.get("name") == "seed", [])
+    if len(vds) != 1 or not vds[0].get("inner"):
+        raise ValueError("no single initialised variable 'seed' in %s" % fn.get("name"))
+    init = vds[0]["inner"][0]
+    while init.get("kind") in ("ImplicitCastExpr", "ParenExpr"):
+        init = init["inner"][0]
+    return init
+
+
+def extract_hash_combine():
+    """Generated/HashCombine.lean from include/nitro/lang/hash.hpp.  Returns (ok, note)."""
+    term, seeds, pair_ok, ok = "seed", {"tuple": "0", "variant": "0"}, False, True
+    try:
+        os.makedirs(os.path.join(core.BUILD, "tu"), exist_ok=True)
+        tu = os.path.join(core.BUILD, "tu", "hash_tu.cpp")
+        with open(tu, "w") as f:
+            f.write("#include <nitro/lang/hash.hpp>\n#include <string>\n"
+                    "std::size_t nitro_verif_probe_t(const std::tuple<int, long>& t) { return nitro::lang::hash(t); }\n"
+                    "std::size_t nitro_verif_probe_p(const std::pair<int, long>& t) { return nitro::lang::hash(t); }\n"
+                    "std::size_t nitro_verif_probe_v(const std::variant<int, long>& t) { return nitro::lang::hash(t); }\n")
+        objs, err = ast_dump(tu, "nitro::lang")
+        if not objs:
+            raise ValueError("clang produced no AST: " + err[-300:])
+        root = {"inner": objs}
+        inst = _find(root, lambda x: x.get("kind") == "FunctionDecl" and x.get("name") == "hash_combine_impl" and
+                     (x.get("type") or {}).get("qualType") == "void (unsigned long &, unsigned long)", [])
+        inst = [i for i in inst if any(c.get("kind") == "CompoundStmt" for c in i.get("inner", []))]
+        if len(inst) != 1:
+            raise ValueError("%d instantiations hash_combine_impl<unsigned long> with a body" % len(inst))
+        params = [c["name"] for c in inst[0]["inner"] if c.get("kind") == "ParmVarDecl"]
+        if params != ["seed", "value"]:
+            raise ValueError("parameters are %s" % params)
+        body = [c for c in inst[0]["inner"] if c.get("kind") == "CompoundStmt"][0].get("inner", []) or []
+        if len(body) != 1 or body[0].get("kind") != "CompoundAssignOperator":
+            raise ValueError("body is not one compound assignment")
+        st = body[0]
+        lhs, rhs = st["inner"]
+        if lhs.get("kind") != "DeclRefExpr" or (lhs.get("referencedDecl") or {}).get("name") != "seed":
+            raise ValueError("assignment target is not the seed")
+        for key in ("computeLHSType", "computeResultType"):
+            if (st.get(key) or {}).get("qualType") != "unsigned long":
+                raise ValueError("compound assignment computes in %s" % (st.get(key) or {}).get("qualType"))
+        r, w = _bv_expr(rhs, set(params))
+        if w != 64:
+            raise ValueError("right-hand side has %d bits" % w)
+        cop = {"^=": "^^^", "+=": "+", "|=": "|||", "&=": "&&&", "-=": "-", "*=": "*"}.get(st.get("opcode"))
+        if cop is None:
+            raise ValueError("compound operator %s" % st.get("opcode"))
+        term = "seed %s %s" % (cop, r)
+        # seeds of hash(tuple), hash(variant); shape of hash(pair): instantiated bodies
+        for what, sig in (("tuple", "tuple<int, long>"), ("variant", "variant<int, long>")):
+            fns = _find(root, lambda x: x.get("kind") == "FunctionDecl" and x.get("name") == "hash" and
+                        sig in (x.get("type") or {}).get("qualType", "") and
+                        any(c.get("kind") == "CompoundStmt" for c in x.get("inner", [])), [])
+            if len(fns) != 1:
+                raise ValueError("%d instantiations of hash(%s)" % (len(fns), what))
+            init = _seed_init(fns[0])
+            if init.get("kind") != "IntegerLiteral":
+                raise ValueError("seed of hash(%s) is not a literal" % what)
+            seeds[what] = init["value"]
+        fns = _find(root, lambda x: x.get("kind") == "FunctionDecl" and x.get("name") == "hash" and
+                    "pair<int, long>" in (x.get("type") or {}).get("qualType", "") and
+                    any(c.get("kind") == "CompoundStmt" for c in x.get("inner", [])), [])
+        if len(fns) != 1:
+            raise ValueError("%d instantiations of hash(pair)" % len(fns))
+        init = _seed_init(fns[0])
+        mem = _find(init, lambda x: x.get("kind") == "MemberExpr", [])
+        calls = _find(fns[0], lambda x: x.get("kind") == "CallExpr", [])
+        comb = [c for c in calls if _find(c["inner"][0], lambda x: (x.get("referencedDecl") or {}).get("name") == "hash_combine_impl", [])]
+        if not (init.get("kind") == "CallExpr" and len(mem) == 1 and mem[0].get("name") == "first" and len(comb) == 1):
+            raise ValueError("hash(pair) is not 'seed = hash(first); hash_combine_impl(seed, hash(second))'")
+        m2 = _find(comb[0], lambda x: x.get("kind") == "MemberExpr", [])
+        if [m.get("name") for m in m2] != ["second"]:
+            raise ValueError("hash(pair) combines %s" % [m.get("name") for m in m2])
+        pair_ok = True
+        note = "hash combiner: seed := %s; tuple seed %s, variant seed %s, pair = combine (hash first) (hash second)" % (
+            term, seeds["tuple"], seeds["variant"])
+    except (ValueError, KeyError, IndexError, json.JSONDecodeError) as e:
+        ok = False
+        term = "seed"
+        note = "hash combiner: extractor no longer recognises the code: " + str(e)
+    content = ("-- written by vlib/extract.py from include/nitro/lang/hash.hpp on every run\n"
+               "namespace NitroVerif.Generated\n"
+               "/-- `detail::hash_combine_impl<unsigned long>`, translated expression by expression. -/\n"
+               "def combineSrc (seed value : BitVec 64) : BitVec 64 := %s\n"
+               "def tupleSeedSrc : BitVec 64 := %s#64\n"
+               "def variantSeedSrc : BitVec 64 := %s#64\n"
+               "def pairShapeSrc : Bool := %s\n"
+               "def hashExtracted : Bool := %s\n"
+               "end NitroVerif.Generated\n") % (term, seeds["tuple"], seeds["variant"],
+                                                 "true" if pair_ok else "false", "true" if ok else "false")
+    changed = write_if_changed(os.path.join(GEN, "HashCombine.lean"), content)
     return ok, note + (" (file rewritten)" if changed else "")
